@@ -49,6 +49,7 @@ type Run struct {
 	start     time.Time
 	Evals     int64
 	distinct  map[string]struct{}
+	firstKeys []string
 	Rule      string
 	samples   []any
 	maxSample int
@@ -112,6 +113,9 @@ func (r *Run) Eval(n int64) { r.mu.Lock(); r.Evals += n; r.mu.Unlock() }
 // Nontrivial records a distinct non-trivial case by its canonical key.
 func (r *Run) Nontrivial(key string) {
 	r.mu.Lock()
+	if _, seen := r.distinct[key]; !seen && len(r.firstKeys) < 3 {
+		r.firstKeys = append(r.firstKeys, key)
+	}
 	r.distinct[key] = struct{}{}
 	r.mu.Unlock()
 }
@@ -239,8 +243,16 @@ func (r *Run) Finish() int {
 	cov["evaluations"] = r.Evals
 	cov["distinct_nontrivial"] = len(r.distinct)
 	cov["rule"] = r.Rule
-	if r.samples == nil {
+	if len(r.samples) == 0 {
+		// the harness's own sampling rule picked nothing (e.g. its first cases all hit a recorded
+		// finding): write out the first distinct non-trivial case keys instead
 		r.samples = []any{}
+		for _, k := range r.firstKeys {
+			if len(k) > 1500 {
+				k = k[:1500] + "…"
+			}
+			r.samples = append(r.samples, map[string]any{"nontrivial_case_key": k})
+		}
 	}
 	cov["samples"] = r.samples
 	if len(r.Inconcl) > 0 {
